@@ -119,15 +119,34 @@ Example C20_ties_refuted :
   listing [a; b] = [Some b; Some b].
 Proof. reflexivity. Qed.
 
-(* the repaired ordering: sort the records themselves *)
+(* the repaired ordering: sort the records themselves, by start time, ties by ID *)
+Definition rleb (a b : rec) : bool :=
+  Nat.ltb (rstart a) (rstart b) || (Nat.eqb (rstart a) (rstart b) && Nat.leb (rid a) (rid b)).
+Definition rle (a b : rec) : Prop := rstart a < rstart b \/ (rstart a = rstart b /\ rid a <= rid b).
+
+Lemma rleb_spec a b : rleb a b = true <-> rle a b.
+Proof.
+  unfold rleb, rle. rewrite orb_true_iff, andb_true_iff, Nat.ltb_lt, Nat.eqb_eq, Nat.leb_le. tauto.
+Qed.
+Lemma rleb_total a b : rleb a b = false -> rle b a.
+Proof.
+  intros H. destruct (rleb a b) eqn:E; [discriminate|]. unfold rleb in E. unfold rle.
+  apply orb_false_iff in E. destruct E as [E1 E2]. apply Nat.ltb_ge in E1.
+  apply andb_false_iff in E2. destruct E2 as [E2|E2].
+  - apply Nat.eqb_neq in E2. lia.
+  - apply Nat.leb_gt in E2. lia.
+Qed.
+Lemma rle_trans a b c : rle a b -> rle b c -> rle a c.
+Proof. unfold rle. lia. Qed.
+
 Fixpoint rinsert (x : rec) (l : list rec) : list rec :=
-  match l with [] => [x] | y :: r => if Nat.leb (rstart x) (rstart y) then x :: y :: r else y :: rinsert x r end.
+  match l with [] => [x] | y :: r => if rleb x y then x :: y :: r else y :: rinsert x r end.
 Definition rsort (l : list rec) : list rec := fold_right rinsert [] l.
 
 Lemma rinsert_perm x l : Permutation (x :: l) (rinsert x l).
 Proof.
   induction l as [|y r IH]; simpl; auto.
-  destruct (Nat.leb (rstart x) (rstart y)); auto.
+  destruct (rleb x y); auto.
   eapply perm_trans; [apply perm_swap|]. constructor. exact IH.
 Qed.
 
@@ -137,26 +156,87 @@ Proof.
   eapply perm_trans; [|apply rinsert_perm]. constructor. exact IH.
 Qed.
 
-Definition rle (a b : rec) := rstart a <= rstart b.
-
 Lemma rinsert_hdrel a x l : rle a x -> HdRel rle a l -> HdRel rle a (rinsert x l).
 Proof.
   intros Hax H. destruct l as [|y r]; simpl; [constructor; auto|].
-  inversion H; subst. destruct (Nat.leb (rstart x) (rstart y)); constructor; auto.
+  inversion H; subst. destruct (rleb x y); constructor; auto.
 Qed.
 
 Lemma rinsert_sorted x l : Sorted rle l -> Sorted rle (rinsert x l).
 Proof.
   induction l as [|y r IH]; simpl; intros S.
   - constructor; constructor.
-  - destruct (Nat.leb_spec (rstart x) (rstart y)) as [L|L].
-    + constructor; [exact S|]. constructor. exact L.
+  - destruct (rleb x y) eqn:L.
+    + constructor; [exact S|]. constructor. apply rleb_spec. exact L.
     + inversion S; subst. constructor; auto.
-      apply rinsert_hdrel; auto. unfold rle. lia.
+      apply rinsert_hdrel; auto. apply rleb_total. exact L.
 Qed.
 
 Theorem rsort_sorted l : Sorted rle (rsort l).
 Proof. induction l; simpl; [constructor|apply rinsert_sorted; auto]. Qed.
 
-Print Assumptions extract_ids.
-Print Assumptions rsort_perm.
+(* ---- the whole report: flatten by ID, then order ---- *)
+Definition report (r : rec) : list rec := rsort (map snd (extract r)).
+
+(* every entry of the flattened map is stored under its own ID *)
+Definition keyed (m : amap) : Prop := forall k v, In (k, v) m -> rid v = k.
+
+Lemma aset_keyed k v m : rid v = k -> keyed m -> keyed (aset k v m).
+Proof.
+  intros Hv. induction m as [|[k' v'] r IH]; simpl; intros K k0 v0 Hin.
+  - destruct Hin as [E|[]]. injection E as <- <-. exact Hv.
+  - destruct (Nat.eqb_spec k k').
+    + destruct Hin as [E|Hin]; [injection E as <- <-; exact Hv|]. apply K. right. exact Hin.
+    + destruct Hin as [E|Hin]; [apply K; left; exact E|].
+      apply IH; auto. intros a b Hab. apply K. right. exact Hab.
+Qed.
+
+Lemma amerge_keyed b : forall a, keyed a -> keyed b -> keyed (amerge a b).
+Proof.
+  unfold amerge. induction b as [|[k v] r IH]; intros a Ka Kb; simpl; auto.
+  apply IH.
+  - apply aset_keyed; auto. apply (Kb k v). left; reflexivity.
+  - intros a0 b0 H. apply Kb. right. exact H.
+Qed.
+
+Lemma fold_merge_keyed (up : list rec) : forall m,
+  keyed m -> Forall (fun u => keyed (extract u)) up ->
+  keyed (fold_left (fun m u => amerge m (extract u)) up m).
+Proof.
+  induction up as [|u up IH]; intros m Km F; simpl; auto.
+  inversion F; subst. apply IH; auto. apply amerge_keyed; auto.
+Qed.
+
+Lemma extract_keyed r : keyed (extract r).
+Proof.
+  induction r as [i s p up IH] using rec_ind'. simpl. apply fold_merge_keyed; auto.
+  intros k v [E|[]]. injection E as <- <-. reflexivity.
+Qed.
+
+Lemma keyed_rids m : keyed m -> map rid (map snd m) = keys m.
+Proof.
+  unfold keys. induction m as [|[k v] r IH]; intros K; simpl; auto.
+  rewrite (K k v (or_introl eq_refl)). f_equal. apply IH. intros a b H. apply K. right. exact H.
+Qed.
+
+(* C20: the report lists exactly the IDs of the lineage, each exactly once, ordered by start time (ties by ID) *)
+Theorem report_ids r : forall x, In x (map rid (report r)) <-> In x (ids r).
+Proof.
+  intros x. unfold report. rewrite <- extract_ids. rewrite <- (keyed_rids (extract r) (extract_keyed r)).
+  split; intros H.
+  - eapply Permutation_in; [apply Permutation_map; apply Permutation_sym; apply rsort_perm|exact H].
+  - eapply Permutation_in; [apply Permutation_map; apply rsort_perm|exact H].
+Qed.
+
+Theorem report_nodup r : NoDup (map rid (report r)).
+Proof.
+  unfold report. eapply Permutation_NoDup; [apply Permutation_map; apply rsort_perm|].
+  rewrite (keyed_rids (extract r) (extract_keyed r)). apply extract_nodup.
+Qed.
+
+Theorem report_sorted r : Sorted rle (report r).
+Proof. unfold report. apply rsort_sorted. Qed.
+
+Print Assumptions report_ids.
+Print Assumptions report_nodup.
+Print Assumptions report_sorted.
